@@ -6,7 +6,7 @@
     (Sni/RpcCorr.v). *)
 From Coq Require Import List NArith ZArith Bool String Permutation.
 From Verif Require Import Lib.Bytes Sni.Wire Sni.WireProofs Sni.WireGen Gen.WireSchema.
-From Verif Require Import Sni.RpcCtx Sni.RpcCtxProofs Sni.RpcShut.
+From Verif Require Import Sni.RpcCtx Sni.RpcCtxProofs Sni.RpcShut Sni.WireCaller.
 From Verif Require Import Sni.SchedSkel Sni.Rpc Sni.RpcProofs Sni.RpcGen Sni.RpcFine Gen.TransportSkel.
 Import ListNotations.
 Local Open Scope N_scope.
@@ -283,6 +283,34 @@ Theorem C03_rejected_call_fallthrough_refuted :
   log (run behind_history) = [(11, RErr CShutdown); (20, RErr CExit); (10, RErr CExit)].
 Proof. exact fallthrough_refuted. Qed.
 Print Assumptions C03_rejected_call_fallthrough_refuted.
+
+(** ** Caller memory: a reply is decoded into the caller's buffer and nowhere else
+    (Sni/WireCaller.v) *)
+
+(** tunnel.Read(buf) hands buf to the reader goroutine as the decode target
+    of the reply.  decoder.bytes decodes in place only when the length
+    prefix is at most len(buf) -- the limit of the source: frozen codec source
+    [gen_codec_src_frozen] and the code refinement of decoder.bytes (C13) --,
+    so whatever the peer sends (a reply shorter than, as long as or longer
+    than the buffer, also longer than len and within cap; truncated; any
+    length prefix) nothing behind len(buf) in the caller's array changes: the
+    reply to call A cannot reach the result of call B next to it. *)
+Theorem C03_reply_decoder_writes_within_len : forall window behind d,
+  skipn (List.length window) (caller_array_after (lenN window) window behind d) = behind.
+Proof. exact reply_decoder_writes_within_len. Qed.
+Print Assumptions C03_reply_decoder_writes_within_len.
+
+(** The limit cap(buf) of the seeded change C03-h, kept as a counter-model: a
+    well-formed reply of 4 bytes into a 2-byte window of capacity 5
+    overwrites two bytes of what lies behind the window. *)
+Theorem C03_reply_decoder_cap_limit_refuted :
+  let window := [0; 0] in let behind := [9; 9; 9] in
+  let reply_field := [4;0;0;0;0;0;0;0; 1; 2; 3; 4] in
+  caller_array_after 5 window behind (init reply_field) = [1; 2; 3; 4; 9] /\
+  skipn 2 (caller_array_after 5 window behind (init reply_field)) <> behind /\
+  caller_array_after (lenN window) window behind (init reply_field) = [0; 0; 9; 9; 9].
+Proof. exact reply_decoder_cap_limit_refuted. Qed.
+Print Assumptions C03_reply_decoder_cap_limit_refuted.
 
 (** The tie to the source: the functions the model was written against have
     the frozen statement skeletons, [pending] is owned by [serve], the type
